@@ -7,9 +7,11 @@
 package main
 
 import (
+	"bytes"
 	"fmt"
 	"go/ast"
 	"go/parser"
+	"go/printer"
 	"go/token"
 	"os"
 	"path/filepath"
@@ -198,6 +200,38 @@ func lexerTables() {
 	emit("].\n\n")
 
 	fds := funcDecls(f)
+	// how a word is classified: the statements of identifier() after its scanning loop, printed from the syntax tree
+	// (the key of the keyword look-up must be the whole lexeme and the look-up must be the spelling table itself)
+	var classify []string
+	if fd, ok := fds["Scanner.identifier"]; ok && fd.Body != nil {
+		for _, st := range fd.Body.List {
+			if _, isLoop := st.(*ast.ForStmt); isLoop {
+				continue
+			}
+			switch x := st.(type) {
+			case *ast.IfStmt:
+				var b bytes.Buffer
+				if x.Init != nil {
+					printer.Fprint(&b, fset, x.Init)
+					b.WriteString("; ")
+				}
+				printer.Fprint(&b, fset, x.Cond)
+				classify = append(classify, "if "+strings.Join(strings.Fields(b.String()), " "))
+				for _, arm := range []ast.Stmt{x.Body, x.Else} {
+					if arm != nil {
+						var c bytes.Buffer
+						printer.Fprint(&c, fset, arm)
+						classify = append(classify, strings.Join(strings.Fields(c.String()), " "))
+					}
+				}
+			default:
+				var b bytes.Buffer
+				printer.Fprint(&b, fset, st)
+				classify = append(classify, strings.Join(strings.Fields(b.String()), " "))
+			}
+		}
+	}
+	emit("Definition gen_word_classification : list string := %s.\n\n", coqStrList(classify))
 	// character dispatch of scanToken
 	type one struct {
 		c rune
